@@ -80,7 +80,10 @@ RULE = ("(a) all concatenations of <=k tokens from {<% %> </% ${ } % %% ## \\ LF
         "CRLF, NBSP, U+2028, astral) with well-formed directives (expression, control lines, ## comment, %% escape, "
         "backslash-newline, <%doc>, <%text>, <% %>, <%! %>, def+call) at line start / mid-line / after a "
         "continuation / at EOF / after CRLF, each with its ground-truth output; (c) token-level mutations of such "
-        "documents and random token soup; timing test: 27 hand-written + 234 grid families (unterminated opener x "
+        "documents and random token soup; construction paths: every canonical document x {utf-8, latin-1, cp1251, "
+        "koi8-r} x {string+coding line, bytes, file, file+module_directory, reused module file}, every generated "
+        "document and every inert non-ASCII enumeration string along all five paths in one encoding (characters the "
+        "codec lacks are substituted in source and documented output alike); timing test: 27 hand-written + 234 grid families (unterminated opener x "
         "repeated filler), n = 16..1024 (quick) / 32768 (thorough). A case is non-trivial when it contains at least "
         "one directive opener or escape; distinct = distinct strings.")
 ASSUMPTIONS = [
@@ -323,13 +326,94 @@ def render(s, **ctx):
     return Template(s).render_unicode(**ctx)
 
 
-def render_oracle_inert(s):
+# ---- construction paths: the same source must give the same literal text however the Template is built
+ENCODINGS = ["utf-8", "latin-1", "cp1251", "koi8-r"]
+REPL = {"utf-8": "", "latin-1": "\u00e9\u00fc\u00df\u00d8", "cp1251": "\u0436\u042f\u0451\u0491", "koi8-r": "\u0436\u042f\u0451\u2557"}
+PATHS = ["string+coding-line", "bytes", "file", "file+module_directory", "reused-module-file"]
+_serial = [0]
+
+
+def transcode(text, enc):
+    """replace every character the codec cannot encode by a non-ASCII letter it can (same map for source and
+    documented output, so the documented output stays the documented output)"""
+    try:
+        text.encode(enc)
+        return text
+    except UnicodeEncodeError:
+        pass
+    rep = REPL[enc]
+    out = []
+    for ch in text:
+        try:
+            ch.encode(enc)
+            out.append(ch)
+        except UnicodeEncodeError:
+            out.append(rep[ord(ch) % len(rep)])
+    return "".join(out)
+
+
+def path_renderer(path, enc, tmp):
+    """-> render(src, **ctx) building the Template along `path`, the source preceded by the magic encoding comment
+    (which the lexer skips) and, for the byte/file paths, encoded with `enc`"""
+    from mako.template import Template
+
+    def r(src, **ctx):
+        coded = "# -*- coding: %s -*-\n" % enc + src
+        if path == "string+coding-line":
+            return Template(coded).render_unicode(**ctx)
+        data = coded.encode(enc)
+        if path == "bytes":
+            return Template(data).render_unicode(**ctx)
+        _serial[0] += 1
+        fn = os.path.join(tmp, "t%d_%d.txt" % (os.getpid(), _serial[0]))
+        with open(fn, "wb") as f:
+            f.write(data)
+        if path == "file":
+            return Template(filename=fn).render_unicode(**ctx)
+        md = os.path.join(tmp, "mods")
+        t1 = Template(filename=fn, module_directory=md)
+        out1 = t1.render_unicode(**ctx)
+        if path == "file+module_directory":
+            sys.modules.pop(t1.module.__name__, None)
+            return out1
+        name = t1.module.__name__
+        sys.modules.pop(name, None)
+        del t1
+        t2 = Template(filename=fn, module_directory=md)      # loads the module file written above
+        try:
+            return t2.render_unicode(**ctx)
+        finally:
+            sys.modules.pop(name, None)
+    return r
+
+
+def paths_oracle(oracle, src, want, tmp, enc):
+    """run `oracle(src, want, renderer)` along every construction path with encoding `enc`;
+    -> list of (site, detail, path)"""
+    bad = []
+    src2, want2 = transcode(src, enc), transcode(want, enc)
+    for path in PATHS:
+        r, to = timed(oracle, src2, want2, path_renderer(path, enc, tmp))
+        if to:
+            r = ("lexer-does-not-finish", "did not finish")
+        if r:
+            site = r[0]
+            if site in ("render-differs", "document-output-differs", "inert-input-rejected", "well-formed-document-rejected",
+                        "well-formed-document-crashed"):
+                site = "literal-text-differs-by-construction-path"
+            bad.append((site, "%s [path %s, encoding %s]" % (r[1], path, enc), path, src2))
+    return bad
+
+
+def render_oracle_inert(s, want=None, renderer=None):
     """(B) for inert strings: output == input.  returns None or (site, detail)"""
     from mako import exceptions
     try:
-        out = render(s)
+        out = (renderer or render)(s)
     except exceptions.MakoException as e:
         return ("inert-input-rejected", "%s: %s" % (type(e).__name__, str(e)[:120]))
+    except Exception as e:
+        return ("inert-input-rejected", "raw %s: %s" % (type(e).__name__, str(e)[:120]))
     if out == s:
         return None
     # which characters went missing?  (known shapes: one `%` of a `\\s*%%` at the very start whose whitespace is not
@@ -432,6 +516,14 @@ def check_batch(strs, opts):
                 b("oracle:" + site)
                 if len(res["violations"]) < 20:
                     res["violations"].append((site, s, detail, "oracle.tiling"))
+        if opts.get("paths") and inert(s) and not s.isascii():
+            enc = ENCODINGS[(len(s) + sum(map(ord, s))) % len(ENCODINGS)]
+            res["render_cases"] += len(PATHS)
+            b("paths:inert:" + enc)
+            for site, detail, path, src2 in paths_oracle(render_oracle_inert, s, s, opts["paths"], enc):
+                b("oracle:" + site)
+                if len(res["violations"]) < 20:
+                    res["violations"].append((site, {"input": src2, "path": path, "encoding": enc}, detail, "oracle.render-paths"))
         if opts.get("render") and inert(s):
             res["render_cases"] += 1
             r, to = timed(render_oracle_inert, s)
@@ -444,6 +536,17 @@ def check_batch(strs, opts):
     return res
 
 
+def with_tmp(fn):
+    """run fn(tmpdir) with a scratch directory for the file / module_directory construction paths"""
+    import shutil
+    import tempfile
+    tmp = tempfile.mkdtemp(prefix="c01paths_")
+    try:
+        return fn(tmp)
+    finally:
+        shutil.rmtree(tmp, ignore_errors=True)
+
+
 def task_exhaustive(args):
     prefix, rest_len, stride, phase, opts = args
     strs = []
@@ -453,6 +556,8 @@ def task_exhaustive(args):
         if stride == 1 or (i % stride) == phase:
             strs.append(p + "".join(t))
         i += 1
+    if opts.get("render"):
+        return with_tmp(lambda tmp: check_batch(strs, dict(opts, paths=tmp)))
     return check_batch(strs, opts)
 
 
@@ -952,11 +1057,11 @@ def gen_document(rng, nseg=None, empty_text_tag=False):
     return g
 
 
-def doc_oracle(src, want):
+def doc_oracle(src, want, renderer=None):
     """(B) on a generated document.  None or (site, detail)"""
     from mako import exceptions
     try:
-        out = render(src, x="X")
+        out = (renderer or render)(src, x="X")
     except exceptions.MakoException as e:
         if "<%text></%text>" in src and "Unclosed tag: <%text>" in str(e):
             return ("empty-text-tag-body", "%s: %s" % (type(e).__name__, str(e)[:100]))
@@ -975,6 +1080,7 @@ def doc_oracle(src, want):
 
 # small canonical documents: every directive kind once, at the position kinds the property names; (source, output)
 CANONICAL = [
+    ("caf\u00e9\n", "caf\u00e9\n"),
     ("plain \u00e9 \u4e16 % # $ < \\ { } | > /\r\nx\ry", "plain \u00e9 \u4e16 % # $ < \\ { } | > /\r\nx\ry"),
     ("${'a'}", "a"), ("x${x}y", "xXy"), ("${ '}' }", "}"), ("${'a|b' | n}", "a|b"), ("${'<' | h}\n", "&lt;\n"),
     ("${x\r\n}", "X"),
@@ -1003,6 +1109,21 @@ def canonical_oracle():
     return bad
 
 
+def canonical_paths_oracle():
+    """every canonical document along every construction path in every encoding -> [(site, case, detail)]"""
+    bad = []
+
+    def run(tmp):
+        for src, want in CANONICAL:
+            if re.match(r"#.*coding[:=]", src):
+                continue
+            for enc in ENCODINGS:
+                for site, detail, path, src2 in paths_oracle(doc_oracle, src, want, tmp, enc):
+                    bad.append((site, {"input": src2, "path": path, "encoding": enc}, detail))
+    with_tmp(run)
+    return bad
+
+
 def task_documents(args):
     seed, n, empty_text = args
     import random
@@ -1016,6 +1137,17 @@ def task_documents(args):
             kinds["doc:" + k] = kinds.get("doc:" + k, 0) + v
     for k, v in kinds.items():
         res["branches"][k] = res["branches"].get(k, 0) + v
+    def paths(tmp):
+        for i, d in enumerate(docs):
+            enc = ENCODINGS[i % len(ENCODINGS)]
+            res["render_cases"] += len(PATHS)
+            res["branches"]["paths:document:" + enc] = res["branches"].get("paths:document:" + enc, 0) + 1
+            for site, detail, path, src2 in paths_oracle(doc_oracle, d.s(), "".join(d.out), tmp, enc):
+                res["branches"]["oracle:" + site] = res["branches"].get("oracle:" + site, 0) + 1
+                if len(res["violations"]) < 20:
+                    res["violations"].append((site, {"input": src2, "path": path, "encoding": enc}, detail,
+                                              "oracle.render-paths"))
+    with_tmp(paths)
     for d in docs:
         res["render_cases"] += 1
         src = d.s()
@@ -1449,6 +1581,11 @@ def run(ctx):
             for site, src, detail in canonical_oracle():
                 VIOL.insert(0, (site, src, detail, "oracle.render-canonical"))
             st_c["cases"] += len(CANONICAL)
+            cp = canonical_paths_oracle()
+            for site, case, detail in reversed(cp[:12]):
+                VIOL.insert(0, (site, case, detail, "oracle.render-paths"))
+            st_c["cases"] += len(CANONICAL) * len(ENCODINGS) * len(PATHS)
+            ctx.branch("paths:canonical", len(CANONICAL) * len(ENCODINGS) * len(PATHS))
             corpus = ["a</%b", "x\n% foo\rbar", "<%text></%text></%text>", "\x0b%%", "<%a:b:c/>"] + [c for c, _ in CANONICAL]
             r = check_batch(corpus, {"render": True})
             merge(ctx, "corr.lexer.corpus", "corr", r)
@@ -1509,6 +1646,18 @@ def replay(ctx, data):
     s = case["input"] if isinstance(case, dict) else case
     if not isinstance(s, str):
         return False
+    if isinstance(case, dict) and "path" in case:
+        # a construction-path case: the path's output against the output of the plain string Template
+        def run(tmp):
+            ref = render(s, x="X")
+            try:
+                got = path_renderer(case["path"], case["encoding"], tmp)(s, x="X")
+            except Exception as e:
+                got = "<%s: %s>" % (type(e).__name__, str(e)[:100])
+            print("Template(string)           :", repr(ref)[:200])
+            print("path %-22s:" % case["path"], repr(got)[:200], "(encoding %s)" % case["encoding"])
+            return got == ref
+        return with_tmp(run)
     for src, want in CANONICAL:
         if src == s:
             bad = doc_oracle(src, want)
